@@ -1,3 +1,3 @@
 From Coq Require Import Extraction ExtrOcamlBasic.
-From TK Require Import FibHeap_Model FibHeap_SpecExec.
-Extraction "c16_model.ml" empty_heap step run_states spec_run_b dn_shipped t_rank.
+From TK Require Import FibHeap_Model FibHeap_SpecExec FibHeap_Dn.
+Extraction "c16_model.ml" empty_heap step run_states spec_run_b dn_shipped t_rank dn_req dn_fixed.
